@@ -41,6 +41,36 @@ def regions(p, r, limit):
     return out
 
 
+def region_oracle(p, its):
+    """no alternative is explored for decisions taken inside a non-exploring region: two iterations
+    that agree on everything that happened outside the regions (same events, same order, same
+    results) must agree on what happened inside"""
+    head, ths = threads(p)
+    seen = {}
+    for it in its:
+        inside = False
+        key, full = [], []
+        for t, pc, ret, _c in it["ev"]:
+            ops = ths[int(t)]
+            name = ops[int(pc)].split()[0] if int(pc) < len(ops) else "?"
+            full.append((t, pc, ret))
+            if name == "stop":
+                inside = True
+            if not inside:
+                key.append((t, pc, ret))
+            if name == "explore":
+                inside = False
+            if name == "skip":
+                inside = True
+        key, full = tuple(key), tuple(full)
+        if key in seen and seen[key] != full:
+            return (f"iterations {seen[key + ('#',)]} and {it['idx']} agree outside the non-exploring region but "
+                    f"differ inside it: {full}")
+        seen[key] = full
+        seen[key + ("#",)] = it["idx"]
+    return None
+
+
 def base_family(ctx):
     r = progs.Rng(ctx.seed ^ 0xC19)
     n = 14 if ctx.quick else 200
@@ -74,12 +104,26 @@ def run(ctx):
     ctl = {}
     for p in base:
         ctl[p] = regions(p, r, 6 if ctx.quick else 40)
-    programs = list(dict.fromkeys(base + [q for qs in ctl.values() for q in qs]))
+    extra = [
+        # an earlier execution reaches skip_branch conditionally, a later one relies on stop/explore
+        "cfg x=2 | T0: spawn 1; ld 0 rlx; ifeq 1 v:0 1; skip; stop; ld 1 rlx; explore; join 1 | T1: st 0 1 rlx; st 1 1 rlx",
+        "cfg x=2 | T0: spawn 1; ld 0 rlx; ifeq 1 v:1 1; skip; stop; ld 1 rlx; explore; ld 0 rlx; join 1 | T1: st 0 1 rlx; st 1 1 rlx",
+        "cfg explicit=1 x=2 | T0: spawn 1; ld 0 rlx; explore; ld 1 rlx; stop; ld 0 rlx; join 1 | T1: st 0 1 rlx; st 1 1 rlx",
+        "cfg x=1 m=1 c=1 | T0: spawn 1; ld 0 rlx; ifeq 1 v:0 1; skip; stop; lock 0; crd 0; unlock 0; explore; join 1 | T1: st 0 1 rlx; lock 0; cwr 0 1; unlock 0",
+    ]
+    ctl["#extra"] = []
+    programs = list(dict.fromkeys(base + [q for qs in ctl.values() for q in qs] + extra))
     impl, twin, dis = ctx.correspond(programs, cap, view="explore")
     differing = {d["program"] for d in dis}
     failures = []
     nontrivial = 0
     restricted = 0
+    for q in extra:
+        its2, done2 = lvlib.iterations(impl.get(q, []))
+        ctx.cov["evaluations"] += len(its2)
+        err = region_oracle(q, its2)
+        if err:
+            failures.append((q, "forbidden", err))
     for p in base:
         its, done = lvlib.iterations(impl.get(p, []))
         ctx.cov["evaluations"] += len(its)
@@ -108,6 +152,9 @@ def run(ctx):
                 failures.append((q, "missing", "result not in the unrestricted result set: " + sorted(extra)[0]))
             if len(its2) > len(its):
                 failures.append((q, "forbidden", f"{len(its2)} iterations with controls, {len(its)} without"))
+            err = region_oracle(q, its2)
+            if err:
+                failures.append((q, "forbidden", err))
             if len(ctx.cov["samples"]) < 3 and len(its2) < len(its):
                 ctx.sample({"program": q, "iterations": len(its2), "unrestricted_iterations": len(its)})
     # ---- limits
